@@ -281,6 +281,11 @@ func fnBitOp(ctx *cmdContext, args map[string]any) (output respValue, err error)
 	keys := args["key"].([]any)
 	destKeyName := keys[0].(string)
 	srcKeys := keys[1:]
+	if len(srcKeys) == 0 {
+		// the first key is the destination; at least one source key is required
+		output.data = respErrorString("ERR wrong number of arguments for 'bitop' command")
+		return
+	}
 	_, op_not := args["operation.not"]
 	_, op_and := args["operation.and"]
 	_, op_or := args["operation.or"]
